@@ -32,6 +32,7 @@ type Env struct {
 	inOld   int
 	addrVars map[string]tv // names bound to cells (captured variables): dereferenced on use
 	trace    []Event       // the path's effect trace (for evres / evarg / evcount)
+	curEvent *Event        // the event an `each ... satisfies` expression is evaluated for
 }
 
 func (e *Env) fail(format string, args ...interface{}) tv {
@@ -311,6 +312,17 @@ func (e *Env) eval(x Expr) tv {
 		return tv{Sc{T: Term{fmt.Sprintf("(%s ((%s %s)) %s)", q, vn, sort, body.S), SBool}}, types.Typ[types.Bool]}
 	case ESel:
 		return e.evalSel(n)
+	case EProj:
+		base := e.eval(n.X)
+		tu, ok := base.v.(Tu)
+		if !ok || n.N >= len(tu.E) {
+			return e.fail("%s: not a tuple with component %d", n.exprString(), n.N)
+		}
+		var t types.Type
+		if tt, ok := base.t.(*types.Tuple); ok && n.N < tt.Len() {
+			t = tt.At(n.N).Type()
+		}
+		return tv{tu.E[n.N], t}
 	case EIndex:
 		return e.evalIndex(n)
 	case ESlice:
@@ -860,6 +872,49 @@ func (e *Env) evalCall(n ECall) tv {
 			return v
 		}
 		return e.fail("evnth: event has no %s", key)
+	case "evis":
+		// evis("pattern"): the event under consideration matches the pattern
+		nameE, ok := n.Args[0].(EStr)
+		if !ok || e.curEvent == nil {
+			return e.fail("evis(pattern) is only meaningful inside `each ... satisfies`")
+		}
+		return tv{Sc{T: BoolLit(matchEvent(nameE.V, e.curEvent.Name))}, boolT}
+	case "uses":
+		// uses(x): the event under consideration has x as receiver, as an argument, or captured by a
+		// closure it is given / spawns
+		if e.curEvent == nil || len(n.Args) != 1 {
+			return e.fail("uses(x) is only meaningful inside `each ... satisfies`")
+		}
+		x := e.eval(n.Args[0])
+		var alts []Term
+		consider := func(v Value, t types.Type) {
+			// only operands whose static type is the static type of x can denote x (no cross-type aliasing)
+			if t == nil || x.t == nil || !types.Identical(t, x.t) {
+				return
+			}
+			switch a := x.v.(type) {
+			case If:
+				if b, ok := v.(If); ok {
+					alts = append(alts, And(Eq(a.Typ, b.Typ), Eq(a.Val, b.Val)))
+				}
+			case Sc:
+				if b, ok := v.(Sc); ok && a.T.Sort == b.T.Sort {
+					alts = append(alts, Eq(a.T, b.T))
+				}
+			}
+		}
+		for i, v := range e.curEvent.Args {
+			if i < len(e.curEvent.ArgT) {
+				consider(v, e.curEvent.ArgT[i])
+			}
+		}
+		if e.curEvent.Recv != nil {
+			consider(e.curEvent.Recv, e.curEvent.RecvT)
+		}
+		for i, v := range e.curEvent.Extra {
+			consider(v, e.curEvent.ExtraT[i])
+		}
+		return tv{Sc{T: Or(alts...)}, boolT}
 	case "evcount":
 		nameE, ok := n.Args[0].(EStr)
 		if !ok {
